@@ -234,6 +234,11 @@ class Sim(object):
     # ------------------------------------------------------------------------------------------
     # network
     def _send(self, a, b, msg):
+        # real time passes while a node sends: a send loop that only a wall-clock test ends (e.g. the leader
+        # re-sending `serialized: None` while its serializer is busy) must not spin for ever on the frozen clock
+        self._sends_in_call = getattr(self, "_sends_in_call", 0) + 1
+        if self._sends_in_call % 50000 == 0 and a in self.now:
+            self.now[a] += 0.0625
         if (a, b) not in self.up:
             return False
         self.sent.append((a, b, msg))
@@ -247,6 +252,7 @@ class Sim(object):
     def _call(self, i, fn, *args, **kw):
         prev = self.cur
         self.cur = i
+        self._sends_in_call = 0
         try:
             return fn(*args, **kw)
         except Exception as e:  # an exception escaping an entry point is an observation
